@@ -124,7 +124,11 @@ def resolve_type_rules(ctx, rep, prop="C05", builtin_precedence=True):
                 ok = a[1] == ("FQN", "IMPORT_MATCH.Some.0")
             elif ok:
                 ok = a[1][1] == "type_.name"
-            msg = "a built-in classification must be the answer of a built-in lookup: on the matched import path (by qualified name) when an import matched, on the written name otherwise"
+                if ok and a[1][0] == "FN":
+                    # by SIMPLE name a reference is a built-in only as the last resort: the imports and the forward declarations were searched and did not match
+                    # (an imported or forward-declared project item named like a built-in resolves to that item)
+                    ok = cm.get("IMPORT_MATCH") == "None" and cm.get("DECL_MATCH") == "None"
+            msg = "a built-in classification must be the answer of a built-in lookup: on the matched import path (by qualified name) when an import matched; on the written name otherwise - by simple name only after the imports and the forward declarations did not match"
         else:
             msg = "unexpected classification %s" % fmt_label(val)
         rep.check(ok, "D", key + "|order", w, "path [%s] assigns %s: %s" % (desc, fmt_label(val), msg), sample={"path": desc, "assigned": fmt_label(val)})
